@@ -553,14 +553,24 @@ impl Machine {
         Ok(())
     }
 
-    /// Frames that are currently awaiting a response: (slot, first index).
+    /// Frames that are currently awaiting a response: (slot, index of the first datagram of the
+    /// request as it went out on the wire - read from the request bytes in the buffer, not from
+    /// the implementation's lookup key).
     pub fn sent_slots(&self) -> Vec<(usize, u8)> {
         self.snapshot()
             .slots
             .iter()
             .enumerate()
             .filter(|(_, s)| s.0 == 4)
-            .map(|(i, s)| (i, s.1 as u8))
+            .map(|(i, s)| (i, s.3[17]))
+            .collect()
+    }
+
+    /// Raw bytes of the whole storage (every frame element including headers and padding).
+    pub fn raw_memory(&self) -> Vec<Vec<u8>> {
+        let (n, _dl, base, stride, _, _) = vf::storage_layout(self.pl());
+        (0..n)
+            .map(|i| unsafe { std::slice::from_raw_parts((base + i * stride) as *const u8, stride).to_vec() })
             .collect()
     }
 
